@@ -70,3 +70,30 @@ fn(A + "_CompoundListener.__call__", cls="LColl", props=["C28"], returns="none",
    exc_ensures={"BaseException": ["forall(lambda f: implies(f in self._g_calls and f not in old(self._g_calls), f in self.parent_listeners or f in old(" + SEQ + ")))",
                                   "len(self._g_calls) <= len(old(self._g_calls)) + len(self.parent_listeners) + len(old(" + SEQ + "))"]},
    modifies=["self._g_calls"])
+
+# ---- the collection's read-only protocol and clear(): what the dispatch sees is exactly the two sequences
+C_ = A + "_CompoundListener."
+fn(C_ + "__contains__", cls="LColl", props=["C28"], returns="bool",
+   ensures=["result == (item in self.parent_listeners or item in " + SEQ + ")"], modifies=[])
+fn(C_ + "__len__", cls="LColl", props=["C28"], returns="int",
+   ensures=["result == len(self.parent_listeners) + len(" + SEQ + ")"], modifies=[])
+fn(C_ + "__bool__", cls="LColl", props=["C28"], returns="bool",
+   ensures=["result == (len(self.parent_listeners) + len(" + SEQ + ") > 0)"], modifies=[])
+fn(L + "clear", cls="LColl", props=["C28"], returns="none", callees={"registry._clear": "noop"},
+   # every instance-level listener is gone (and nothing is left to propagate); the class-level ones are not this collection's to clear
+   ensures=["len(" + SEQ + ") == 0", "not any(True for x in self.propagate)", "self.parent_listeners == old(self.parent_listeners)"],
+   modifies=[SEQ, "contents(self.propagate)"])
+# _update: an instance-level collection takes over the listeners of another one (dispatch joining / class-level propagation):
+# everything `other` propagates becomes propagated here, and of other's listeners exactly those are appended, in other's order,
+# that are propagated -- or, when only_propagate is off, not here yet.  The existing listeners keep their places.
+from pyvc.contract import CLASSES as _CL  # noqa: E402
+_CL["LColl"].fields.update({"_is_asyncio": "bool"})
+OSEQ = "contents(other.listeners)"
+fn(L + "_update", cls="LColl", props=["C28"], returns="none", types={"other": "LColl", "only_propagate": "bool", "l": "v", "existing_listeners": "deque",
+                                                                    "existing_listener_set": "set", "other_listeners": "list", "to_associate": "set"},
+   callees={"registry._stored_in_collection_multi": "noop", "self._set_asyncio": "noop"},
+   requires=["other is not self", "other.listeners is not self.listeners", "other.propagate is not self.propagate"],
+   ensures=["forall(lambda x: (x in self.propagate) == (old(x in self.propagate) or x in other.propagate))",
+            SEQ + " == old(" + SEQ + ") + filt(lambda l: (l not in old(" + SEQ + ") and not only_propagate) or l in self.propagate, " + OSEQ + ")",
+            OSEQ + " == old(" + OSEQ + ")"],
+   modifies=[SEQ, "contents(self.propagate)"])
